@@ -73,3 +73,5 @@ pub type SystemTerminal = unix::UnixTerminal;
 
 #[cfg(feature = "verif-hooks")]
 pub use unix::verif_c16;
+#[cfg(feature = "verif-hooks")]
+pub use unix::verif_c17;
